@@ -92,6 +92,8 @@ type parserProp struct {
 	tweak    func(t *rapid.T, c *PCfg)
 	after    func(x *parserExec) // extra oracles on the finished history
 	classify func(x *parserExec) (classes []string, nontrivial bool)
+	// fuzzKinds: kinds drawn by the native fuzz target
+	fuzzKinds []string
 }
 
 func (pp parserProp) run(t *testing.T, kinds []string) {
@@ -99,28 +101,37 @@ func (pp parserProp) run(t *testing.T, kinds []string) {
 	for _, kind := range kindsFromEnv(kinds) {
 		kind := kind
 		t.Run(kind, func(t *testing.T) {
-			rapid.Check(t, func(t *rapid.T) {
-				cfg := genPCfg(t, kind, pp.maxBuf)
-				if pp.tweak != nil {
-					pp.tweak(t, &cfg)
-				}
-				x, err := newParserExec(cfg)
-				if err != nil {
-					st.class("config-rejected:" + kind)
-					return
-				}
-				if pp.setup != nil {
-					pp.setup(x)
-				}
-				beginCase(pp.prop, kind, func() any { return x.Case() })
-				genParserHistory(t, x, pp.opts(kind))
-				if pp.after != nil && !x.dead {
-					pp.after(x)
-				}
-				endCase()
-				pp.judge(t, st, kind, x)
-			})
+			rapid.Check(t, pp.body(kind, st))
 		})
+	}
+}
+
+// body is the rapid property for one parser kind ("" = the kind is drawn).
+func (pp parserProp) body(fixedKind string, st *propStats) func(t *rapid.T) {
+	return func(t *rapid.T) {
+		kind := fixedKind
+		if kind == "" {
+			kind = rapid.SampledFrom(pp.fuzzKinds).Draw(t, "kind")
+		}
+		cfg := genPCfg(t, kind, pp.maxBuf)
+		if pp.tweak != nil {
+			pp.tweak(t, &cfg)
+		}
+		x, err := newParserExec(cfg)
+		if err != nil {
+			st.class("config-rejected:" + kind)
+			return
+		}
+		if pp.setup != nil {
+			pp.setup(x)
+		}
+		beginCase(pp.prop, kind, func() any { return x.Case() })
+		genParserHistory(t, x, pp.opts(kind))
+		if pp.after != nil && !x.dead {
+			pp.after(x)
+		}
+		endCase()
+		pp.judge(t, st, kind, x)
 	}
 }
 
